@@ -75,20 +75,42 @@ type Case struct {
 // the others never exist. Byte order of the names = numeric order of the ids (bolt iterates in key order).
 const extMP = "/proc"
 
-func mpName(m int) string {
-	if m == 0 {
-		return extMP
+// Mountpoints are opaque strings for the manager (fsMap and the bolt bucket are keyed by the exact string), so
+// every SPELLING is its own model key, also several spellings of one directory (trailing slash, doubled slash,
+// "/./", "/x/../"). The table is sorted bytewise: model key = index, so numeric order = bolt iteration order.
+var mpNames = []string{
+	extMP,
+	"/verif-c17/./mp2",
+	"/verif-c17//mp3",
+	"/verif-c17/mp1",
+	"/verif-c17/mp1/",
+	"/verif-c17/mp1/.",
+	"/verif-c17/mp1/../mp1",
+	"/verif-c17/mp1//",
+	"/verif-c17/mp2",
+	"/verif-c17/mp2/",
+	"/verif-c17/mp3",
+}
+
+func init() {
+	for i := 1; i < len(mpNames); i++ {
+		if !(mpNames[i-1] < mpNames[i]) {
+			panic("HARNESS: mountpoint table is not sorted")
+		}
 	}
-	return fmt.Sprintf("/verif-c17/mp%d", m)
+}
+
+func mpName(m int) string {
+	if m >= 0 && m < len(mpNames) {
+		return mpNames[m]
+	}
+	return fmt.Sprintf("/verif-c17/zz%d", m)
 }
 
 func mpID(s string) int {
-	if s == extMP {
-		return 0
-	}
-	if strings.HasPrefix(s, "/verif-c17/mp") {
-		if n, err := strconv.Atoi(s[len("/verif-c17/mp"):]); err == nil {
-			return n
+	for i, n := range mpNames {
+		if n == s {
+			return i
 		}
 	}
 	return 990
@@ -685,7 +707,7 @@ func coqCase(c Case, outs []Obs) string {
 
 // ---- generation ----
 
-const nMP, nLbl, nCfg = 5, 4, 4
+const nMP, nLbl, nCfg = 10, 4, 4
 
 func genInit(r *hx.Rng) Op {
 	o := Op{Op: "init", C: r.Intn(nCfg)}
@@ -929,6 +951,15 @@ func main() {
 		// restart, construction failure, mount; unmount of unknown / kernel-mounted mountpoints; close
 		{Ops: []Op{runc(1), {Op: "mount", M: 4, L: 1, Ok: true}, {Op: "restart"}, {Op: "init", C: 2, Stage: "fs"}, {Op: "mount", M: 5, L: 1, Ok: true}, {Op: "unmount", M: 4, Ok: true}, {Op: "unmount", M: 5, Ok: true}, {Op: "unmount", M: 0, Ok: true}, {Op: "mount", M: 0, L: 1, Ok: true}, runc(2), {Op: "unmount", M: 0, Ok: true}, {Op: "mount", M: 0, L: 1, Ok: true}, {Op: "unmount", M: 0, Ok: true}, {Op: "close"}, {Op: "mount", M: 1, Ok: true}, {Op: "close"}, runc(3), {Op: "mount", M: 1, Ok: true}, {Op: "restart"}, runc(0)}},
 	}
+	// spellings: Mount with a trailing slash, Check/Unmount with the same and with the canonical spelling (other keys),
+	// unmount, restart: nothing may be left to restore; then "/x/../" and "//" spellings across a restart
+	k := func(s string) int { return mpID("/verif-c17/" + s) }
+	corpus = append(corpus, Case{Ops: []Op{runc(0), {Op: "mount", M: k("mp1/"), L: 1, Ok: true}, {Op: "check", M: k("mp1/"), L: 1, Ok: true},
+		{Op: "check", M: k("mp1"), L: 1, Ok: true}, {Op: "unmount", M: k("mp1"), Ok: true}, {Op: "unmount", M: k("mp1/"), Ok: true},
+		{Op: "restart"}, runc(1), {Op: "check", M: k("mp1/"), L: 1, Ok: true},
+		{Op: "mount", M: k("mp1/../mp1"), L: 2, Ok: true}, {Op: "mount", M: k("/mp3"), L: 3, Ok: true}, {Op: "mount", M: k("./mp2"), L: 1, Ok: true},
+		{Op: "mount", M: k("mp1"), L: 1, Ok: true}, {Op: "unmount", M: k("/mp3"), Ok: true}, {Op: "restart"}, runc(2),
+		{Op: "unmount", M: k("mp1/../mp1"), Ok: true}, {Op: "unmount", M: k("./mp2"), Ok: false}, {Op: "check", M: k("./mp2"), L: 1, Ok: true}, {Op: "restart"}, runc(3)}})
 	for _, c := range corpus {
 		emit(c)
 	}
